@@ -88,6 +88,16 @@ package alertsHandler
 // comparison unchanged (proved); that every bucket's value is compared by its
 // NUMBER, however it is delivered (number types, plain or humanized strings), is
 // text parsing and only covered by the bounded stand-in.
+// the same for a result delivered as records with a measure column: which name
+// the measure column goes by after the response's rename map is string-keyed map
+// work, decided by the bounded stand-in only
+//@ func evaluateRecordsMeasureAggsAlertCondition
+//@   props C20
+//@   assumecalleerequires
+//@   site call evaluateConditions #1:
+//@     assert [condition-and-threshold-reach-the-comparison-unchanged] arg1 == queryCond && (arg2 == alertValue || alertValue != alertValue)
+//@   bounded alertsHandler/recordscondition_test.go Test_Bounded_RecordsMeasureAlertCondition 4 rename maps (none, an unrelated column, the measure column, both) x 3 value representations (number, string, humanized) x 3 conditions x 1 or 2 records with values below / at / above the threshold (432 evaluations): matched iff some record's measure value satisfies the condition
+//@ end
 //@ func evaluateMeasureResultsAlertCondition
 //@   props C20
 //@   assumecalleerequires
